@@ -274,6 +274,16 @@ class World:
             finally:
                 tmo.reaction.CHECK_FEASIBILITY = True
             return dict(reduced_m=[fr(x) for x in f.imol.data.to_array()])
+        elif op == 'set_copy':
+            cp = self.set.copy() if a['basis'] == NONE else self.set.copy(basis=a['basis'])
+            f = tmo.Stream(None, thermo=self.th, phase='g', T=400)
+            f.copy_like(self.feed)
+            tmo.reaction.CHECK_FEASIBILITY = False
+            try:
+                cp.force_reaction(f)
+            finally:
+                tmo.reaction.CHECK_FEASIBILITY = True
+            return dict(reduced_m=[fr(x) for x in f.imol.data.to_array()], same=cp is self.set)
         elif op == 'to_mol':
             res = R[a['x']].copy(basis='mol')
             same = res is R[a['x']]
@@ -350,6 +360,8 @@ def random_op(rng, st, ops, slots=SLOTS):
         return op, dict(Xs=[q(rng.choice(XV)) for _ in range(n)])
     if op == 'reduce':
         return op, dict()
+    if op == 'set_copy':
+        return op, dict(basis=rng.choice([NONE, 'wt', 'wt', 'mol']))
     if op in ('to_wt', 'to_mol'):
         return op, dict(d=rng.choice(slots), x=x)
     if op in ('item_set_X', 'set_set_X'):
